@@ -76,6 +76,9 @@ def run(ctx: Context) -> None:
     ctx.rule(r6_filters)
     ctx.rule(dtype_rule)
     ctx.rule(late_binding_rule)
+    ctx.rule(constructor_forwarding)
+    # "nor depends on earlier evaluations": that includes the process-wide floating-point error mode (rule shared with C20)
+    ctx.rule(fp_state)
     # non-negativity of the MSM objective rests on its shape: g.g, or g.W.g with W = diag(1 / mean_e (deviation)^2) - a reciprocal of a mean of squares is positive
     # by construction, an algebraically "equal" expansion r^2 - 2 r E[x] + E[x^2] is not (cancellation can make it zero or negative).  Shared with C07-R3.
     from . import c07
@@ -486,3 +489,21 @@ def late_binding_rule(ctx: Context) -> None:
                      f"then uses the value `{var}` had in the last iteration (bind it with a default argument or functools.partial)", f, c)
     ctx.ok("R7.late-binding", "losses:closures", f"no closure of {n_f} loss / filter functions captures an iteration variable late")
     ctx.floor("R7", "loss / filter functions scanned for late-binding closures", n_f, 30)
+
+
+def constructor_forwarding(ctx: Context) -> None:
+    """Weights and filters given to a built-in loss reach BaseLoss under their own names (no positional argument misrouted by a changed base signature)."""
+    from ..util import misrouted_super_arguments
+    n, bad = misrouted_super_arguments(ctx.prog, "BaseLoss")
+    for m, call, why in bad:
+        ctx.fail("R8.constructor-forwarding", f"{m.qualname.split(':')[1]}:{' '.join(src(call).split())[:50]}", f"{why}: the weights / filters the user set are not the ones the loss uses", m, call)
+    ctx.ok("R8.constructor-forwarding", "losses:super-init", f"{n} constructor forwarding call(s) in the loss hierarchy: every name lands on the parameter of the same name")
+    ctx.floor("R8", "constructor forwarding calls in the loss hierarchy", n, 4)
+
+
+def fp_state(ctx: Context) -> None:
+    from ..util import unrestored_fp_state
+    n, bad = unrestored_fp_state(ctx.prog)
+    for f_, c_, why in bad:
+        ctx.fail("R2.fp-error-mode", f"{f_.qualname.split(':')[1]}:seterr", why, f_, c_)
+    ctx.ok("R2.fp-error-mode", "package:scanned", f"{n} functions: the floating-point error mode is never changed without a restoring finally")
